@@ -292,6 +292,9 @@ fn alphabet_long() -> Vec<V> {
 fn alphabet_keys() -> Vec<Option<V>> {
     vec![
         Some(V::I64(1)),
+        // the same integer in an unsigned encoding: one key, one group (seeded change C16-3: equal
+        // keys of different signedness hashed differently and group_by split them)
+        Some(V::U64(1)),
         Some(V::F64(1.0)),
         Some(V::U64(2)),
         Some(V::s("a")),
